@@ -38,6 +38,7 @@ fn main() {
         "C10-closure" => vcore::props::closure::run_c10_component(&args, &mut rep),
         "C17" => vcore::props::c17::run(&args, &mut rep),
         "C14" => vcore::props::c14::run(&args, &mut rep),
+        "C14-random" => vcore::props::c14::run_random(&args, &mut rep),
         "C03-sessions" => vcore::props::c03::run_sessions(&args, &mut rep),
         "C03-lean" => vcore::props::c03::run_lean(&args, &mut rep),
         "C03-components" => vcore::props::c03::run_components(&args, &mut rep),
